@@ -137,7 +137,7 @@ for g in ['SO3', 'SE3', 'RxSO3']:
     mk()
 
 
-QREG = ('generic', 'identity', 'nearpi', 'small', 'neg')
+QREG = ('generic', 'identity', 'nearpi', 'halfturn', 'small', 'neg')
 
 for g in ['SO3', 'SE3', 'RxSO3']:
     def mk(g=g):
